@@ -23,7 +23,7 @@ def c_dir(d):
     if d is None:
         return "None"
     data = vlib.clist(["(%d, %d, %s)" % (f["chunk"], max(f["size"], 0), vlib.clist(
-        ["(%s, %s, %s)" % (r[0], vlib.cstr(r[1]), vlib.cZ(int(r[2]))) for r in (f["recs"] or [])])) for f in d["data"]])
+        ["(%s, %s, %s)" % (r[0], vlib.cstr(r[1]), vlib.cZ(int(r[2]))) for r in (f["recs"] or [])])) for f in d["data"] if f["size"] != 0])   # an empty NNN.data (created or not by the racing post-rotation flush) is not compared
     hints = vlib.clist(["(%d, %d)" % parse_idx(n) for n in sorted(d["hints"])])
     trees = vlib.clist(["(%d, %s)" % (parse_idx(n)[0], vlib.cZ(parse_idx(n)[1])) for n in sorted(d["trees"])])
     merged = vlib.clist(["(%d, %s)" % (parse_idx(n)[0], vlib.cZ(parse_idx(n)[1])) for n in sorted(d["merged"])])
@@ -217,6 +217,7 @@ def refmap_oracle(c, collide=False):
     set of admissible values (a forgotten tombstone after restart/GC is allowed by the property)."""
     cf = c["cfg"]
     st = {}
+    written = {}
     skip = set()
     viol = []
     after_rebuild = False
@@ -236,6 +237,7 @@ def refmap_oracle(c, collide=False):
         if t == "S":
             v = bytes.fromhex(o.get("v", ""))
             rev = o.get("rev", 0)
+            written.setdefault(k, []).append((v, o.get("flag", 0)))
             if o["res"] != "STORED":
                 bad("set-status", "set of a valid key answered %s" % o["res"], idx)
                 continue
@@ -254,6 +256,8 @@ def refmap_oracle(c, collide=False):
             if e and e.live:
                 if o["res"] != "DELETED":
                     bad("delete-status", "delete of a live key answered %s" % o["res"], idx)
+                    if collide:
+                        continue      # not deleted: the key legitimately stays live
                 st[k] = Entry(b"", 0, {-abs(ov) - 1 for ov in e.vers}, False)
             else:
                 if o["res"] != "NOT_FOUND":
@@ -279,7 +283,13 @@ def refmap_oracle(c, collide=False):
                     bad("get-miss" if o["res"] == "MISS" else "get-error",
                         "get of a live key answered %s%s" % (o["res"], " (after restart/GC)" if after_rebuild else ""), idx)
                 elif bytes.fromhex(o["out"][0]) != e.val or int(o["out"][1]) != e.flag:
-                    bad("get-wrong-value", "get returned bytes/flags that are not the last accepted write", idx)
+                    got = (bytes.fromhex(o["out"][0]), int(o["out"][1]))
+                    if got in written.get(k, []):
+                        bad("get-stale-own-value", "get returned an OLDER value of the same key, not the last accepted write", idx)
+                    elif any(got in vs for k2, vs in written.items() if k2 != k):
+                        bad("get-alias", "get returned ANOTHER key's value", idx)
+                    else:
+                        bad("get-wrong-value", "get returned bytes/flags that were never written", idx)
             else:
                 if o["res"] == "HIT":
                     bad("get-resurrected", "get of a deleted/never written key returned a value", idx)
@@ -320,3 +330,27 @@ def refmap_oracle(c, collide=False):
                 if not e2.live:
                     e2.vers = set(e2.vers) | {0}     # tombstone may be forgotten
     return viol
+
+
+def run_script(ctx, path, idx=900000):
+    """run one scripted history (corpus / known finding) on the implementation"""
+    import json
+    out = os.path.join(ctx.work, "script_%d.jsonl" % idx)
+    rc, o = vlib.harness(["l2script", "-out", out, path], timeout=600)
+    if rc != 0:
+        raise RuntimeError("harness l2script failed on %s: %s" % (path, o[-300:]))
+    c = vlib.read_jsonl(out)[0]
+    c["i"] = idx
+    c["seed"] = 0
+    c["script"] = os.path.relpath(path, vlib.VERIF)
+    return c
+
+
+def corpus_cases(ctx, pid):
+    d = os.path.join(vlib.VERIF, "corpus", pid)
+    res = []
+    if os.path.isdir(d):
+        for n, fn in enumerate(sorted(os.listdir(d))):
+            if fn.endswith(".json"):
+                res.append(run_script(ctx, os.path.join(d, fn), 900000 + n))
+    return res
